@@ -117,6 +117,23 @@ def check(ctx):
     check_csv(ctx, produced)
     check_hdf5_results_condition(ctx)
     check_config_not_edited(ctx)
+    # the three outputs list the cells in the order of the query file: the
+    # collated results are re-ordered by the obs index on every path
+    # before any writer sees them (rule of C01)
+    from .C01 import check_reorder
+    check_reorder(ctx)
+    # the writers read the records; they do not edit what the next writer
+    # (and the JSON output) will be given (sa/rules/escape.py)
+    from ..rules.escape import check_param_records_not_edited
+    n_ro = 0
+    for fi_ in ctx.db.iter_functions():
+        if fi_.module.short == 'utils.output_utils':
+            n_ro += check_param_records_not_edited(
+                ctx, fi_, ('results_blob', 'output_blob', 'results',
+                           'blob'))
+    if n_ro < 4:
+        raise AnalysisError(f'only {n_ro} record parameters found among '
+                            'the output writers')
     from .C10 import check_node_identity
     check_node_identity(ctx, ('utils.output_utils', 'taxonomy.taxonomy_tree'), floor=1)
 
